@@ -13,6 +13,29 @@ ENDINGS = ['(Spc Newline)', '(Spc Newline) (Lit %s)' % sx_str(' '), '(Spc Newlin
            '(Spc Newline) (Spc Newline)', '(Lit %s)' % sx_str('x\n'), '(Lit %s)' % sx_str('\n'), '(Lit %s) (Spc Newline)' % sx_str('\n'), '(Spc Newline) (Lit %s)' % sx_str('\n'),
            '(Spc CarriageReturn)', '(Spc Newline) (Spc Null)', '(Spc Null) (Spc Newline)', '(Spc Backslash)', '(Spc (Ascii 10)) (Spc Newline)']
 
+def all_format_elements():
+    from streams import FIELDS0, SPECIALS0
+    els = ['(Fld %s)' % f for f in FIELDS0 if f not in ('Depth', 'DeviceNumber', 'FsType', 'SymbolicTarget', 'PermissionsSymbolic', 'TypeSymlink', 'SecurityContext')]
+    els += ['(Fld (AccessFormatted c64))', '(Fld (ChangeFormatted c107))', '(Fld (ModifyFormatted c89))', '(Fld (XAttr %s))' % sx_str('user'), '(Fld (XAttr %s))' % sx_str('a')]
+    els += ['(Spc %s)' % x for x in SPECIALS0 if x != 'Clear'] + ['(Spc (Ascii 10))', '(Spc (Ascii 65))', '(Spc (Ascii 0))', '(Lit %s)' % sx_str('x'), '(Lit %s)' % sx_str('\n'), '(Lit %s)' % sx_str(' ')]
+    return els
+
+
+def format_tail_trees():
+    """Formats of one and two elements over EVERY element kind, on stdout (alone: plain or framed by its own ending;
+    next to -print; next to a file action: framed) and into a file."""
+    els = all_format_elements()
+    trees = []
+    fmts = ['(# %s)' % a for a in els] + ['(# %s %s)' % (a, b) for a in els for b in els]
+    for f in fmts:
+        trees.append('(A (PrintFormatted %s))' % f)
+    for f in fmts[::3]:
+        trees.append('(And (A Print) (A (PrintFormatted %s)))' % f)
+        trees.append('(List (A (PrintFormatted %s)) (A (FilePrint %s)))' % (f, sx_str('o')))
+        trees.append('(A (FilePrintFormatted %s %s))' % (sx_str('o'), f))
+    return trees
+
+
 def T(tree, path=DEV, depth=0, threads='-', annot=''):
     return 'T %d %s %s %s%s' % (depth, threads, path, tree, (' ' + annot) if annot else '')
 
@@ -107,6 +130,18 @@ def gen_strings(tier, rnd):
             b = benign(s)
             lines.append(T(build(b), annot='#grp=s%d #strs=%s' % (g, ','.join(hx(x) for x in strs(b) + ['/dev/x']))))
             lines.append(T(build(s), annot='#grp=s%d #strs=%s' % (g, ','.join(hx(x) for x in strs(s) + ['/dev/x']))))
+    # TWO string sites in one expression whose strings differ only up to a plausible normalisation, or collide when a
+    # sharing key is built by concatenating the string with a flag: each must still appear as its own literal
+    for b in ['x', '*.log', 'docs']:
+        for t in twins(b) + key_twins(b):
+            for (m1, m2) in [('Name', 'InsensitiveName'), ('InsensitiveName', 'Name'), ('Path', 'InsensitivePath'), ('InsensitivePath', 'Path'), ('Name', 'Name')]:
+                tree = lambda x, y: '(Or (T (%s %s)) (T (%s %s)))' % (m1, sx_str(x), m2, sx_str(y))
+                for (x, y) in [(t, b), (b, t)]:
+                    g += 1
+                    # the benign twin keeps the kind of matcher (a pattern stays a pattern): only the strings differ
+                    bx, by = ('q*' if has_glob(x) else 'aaa'), ('r*' if has_glob(y) else 'bbb')
+                    lines.append(T(tree(bx, by), annot='#grp=s%d #strs=%s' % (g, ','.join(hx(z) for z in [bx, by, '/dev/x']))))
+                    lines.append(T(tree(x, y), annot='#grp=s%d #strs=%s' % (g, ','.join(hx(z) for z in [x, y, '/dev/x']))))
     # every octal escape value: the character it denotes is user text inside the template
     for v in list(range(0, 256)) + [256, 0o377, 0o400, 0o776, 0o777]:
         g += 1
@@ -114,6 +149,14 @@ def gen_strings(tier, rnd):
         leaf = lambda code: 'a' + chr(code).replace('~', '~~') + '~a\n'
         lines.append(T(tree(65), annot='#grp=s%d #strs=%s' % (g, ','.join([hx(leaf(65)), hx('/dev/x')]))))
         lines.append(T(tree(v), annot='#grp=s%d #strs=%s' % (g, ','.join([hx(leaf(v)), hx('/dev/x')]))))
+    # octal escapes IN A ROW that spell (or almost spell) a UTF-8 byte sequence: each is one character of user text
+    from gen_parser import octal_runs
+    for run in octal_runs():
+        g += 1
+        tree = lambda codes: '(A (PrintFormatted (# (Lit %s) %s (Fld Name) (Spc Newline))))' % (sx_str('a'), ' '.join('(Spc (Ascii %d))' % c for c in codes))
+        leaf = lambda codes: 'a' + ''.join(chr(c).replace('~', '~~') for c in codes) + '~a\n'
+        lines.append(T(tree([65] * len(run)), annot='#grp=s%d #strs=%s' % (g, ','.join([hx(leaf([65] * len(run))), hx('/dev/x')]))))
+        lines.append(T(tree(run), annot='#grp=s%d #strs=%s' % (g, ','.join([hx(leaf(run)), hx('/dev/x')]))))
     # strftime conversion character and the device path
     for c in C04_ALPHABET + ['k', 'Y']:
         g += 1
@@ -170,6 +213,14 @@ def gen_histories_c20(tier, rnd):
         lines.append('C %s %s' % (hx(rand_compilable_text(rnd)), ' '.join(hx(p) for p in ps)))
     for L in range(60, 100):
         lines.append('C %s %s' % (hx('-name *.log -fprint out.txt'), ' '.join(hx(p) for p in ['/' + 'é' * L, '/a' + 'é' * L, '/' + 'é' * L])))
+    # a path followed by the text of its own ESCAPED spelling (and the other way round): a render cache keyed before
+    # escaping on one side and after it on the other would confuse the two
+    def esc(pth):
+        return ''.join('\\"' if c == '"' else '\\\\' if c == '\\' else ('\\x%x;' % ord(c)) if ord(c) < 32 or ord(c) == 127 else c for c in pth)
+    for P0 in ['/dev/mapper/mdt"0', 'a\\b', 'x"y\\z', '/d\x01e', 'q~a"', '"', '\\', '/dev/é"\\']:
+        for seq in [[P0, esc(P0)], [esc(P0), P0], [P0, esc(P0), P0, esc(esc(P0))], [P0, P0, esc(P0)], [esc(esc(P0)), esc(P0), P0]]:
+            for text in ['-name x -print', "-printf '%p\\n' -fprint out", '-print0']:
+                lines.append('C %s %s' % (hx(text), ' '.join(hx(q) for q in seq)))
     # user strings that look like a template slot or like the device path itself must stay what they are
     markers = ['{mdt}', '{}', '{0}', '{device}', '%s', '%MDT%', '$mdt', '${mdt}', '@MDT@', 'MDT', '~a', '/dev/x', '/dev/mdt0', '"/dev/x"', '<mdt>', '__MDT__']
     for mk in markers:
@@ -187,7 +238,8 @@ def twins(s):
     import unicodedata
     cand = [s, './' + s, './/' + s, s + '/', '/' + s, s.upper(), s.lower(), s.swapcase(), ' ' + s, s + ' ', s + '\\',
             ''.join('\\' + c if c in '*?[' else c for c in s), ''.join('\\' + c for c in s), s.replace('*', '?'),
-            unicodedata.normalize('NFD', s), s + '\u0301', s + s, s[:-1] if len(s) > 1 else s + 'x']
+            unicodedata.normalize('NFD', s), s + '\u0301', s + s, s[:-1] if len(s) > 1 else s + 'x',
+            s.replace('/', '//'), s.replace('/', '/./'), s + '/.', 'd/../' + s, s.replace('.', '%2e')]
     out = []
     for c in cand:
         if c != s and c not in out:
@@ -195,7 +247,7 @@ def twins(s):
     return out
 
 
-TWIN_BASES = ['out', 'a*', 'x[1]', 'Ab?', 'é.txt', 'log.0']
+TWIN_BASES = ['out', 'a*', 'x[1]', 'Ab?', 'é.txt', 'log.0', 'logs/a.txt']
 
 
 def twin_trees():
@@ -211,6 +263,35 @@ def twin_trees():
                     trees.append('(List (A (%s %s)) (A (%s %s)))' % (a, sx_str(x), a, sx_str(y)))
                 trees.append('(Or (And (T (Name %s)) (A (FilePrint %s))) (And (T (Name %s)) (A (FilePrint %s))))' % (sx_str('a'), sx_str(x), sx_str('b'), sx_str(y)))
                 trees.append('(List (A (FilePrintFormatted %s (# (Fld Name) (Spc Newline)))) (A (FilePrintFormatted %s (# (Fld Name) (Spc Newline)))))' % (sx_str(x), sx_str(y)))
+    return trees
+
+
+def key_twins(s):
+    """Strings that collide with s when a sharing key is built by CONCATENATING the string with a flag, a kind or a
+    terminator (key = s + sep + tag or tag + sep + s)."""
+    out = []
+    for sep in ['-', '/', ':', '|', '_', ',', ' ', '.', '#', '']:
+        for tag in ['i', 'ci', 'I', '1', '0', 'true', 'false', 'n', 'nul', 'null', 'None', 'fnmatch', 'streq', 'name', 'path']:
+            if sep == '' and len(tag) > 2:
+                continue
+            out.append(s + sep + tag); out.append(tag + sep + s)
+    return out
+
+
+def key_twin_trees():
+    trees = []
+    for b in ['x', '*.log', 'docs']:
+        for t in key_twins(b):
+            for (m1, m2) in [('Name', 'InsensitiveName'), ('InsensitiveName', 'Name'), ('Path', 'InsensitivePath'), ('InsensitivePath', 'Path'),
+                             ('Name', 'Path'), ('InsensitiveName', 'InsensitivePath')]:
+                trees.append('(Or (T (%s %s)) (T (%s %s)))' % (m1, sx_str(t), m2, sx_str(b)))
+                trees.append('(Or (T (%s %s)) (T (%s %s)))' % (m2, sx_str(b), m1, sx_str(t)))
+    for b in ['out', 'f1']:
+        for t in key_twins(b):
+            for (a1, a2) in [('FilePrint', 'FilePrintNull'), ('FilePrintNull', 'FilePrint')]:
+                trees.append('(List (A (%s %s)) (A (%s %s)))' % (a1, sx_str(t), a2, sx_str(b)))
+                trees.append('(List (A (%s %s)) (A (%s %s)))' % (a2, sx_str(b), a1, sx_str(t)))
+            trees.append('(List (A (FilePrint %s)) (A (FilePrintFormatted %s (# (Fld Name)))))' % (sx_str(t), sx_str(b)))
     return trees
 
 
@@ -269,8 +350,12 @@ def gen_resources(tier, rnd):
     for e in ENDINGS:
         lines.append(T('(Or (A Print) (A (PrintFormatted (# (Fld Name) %s))))' % e))
         lines.append(T('(A (PrintFormatted (# (Lit %s) (Fld Name) %s)))' % (sx_str('p '), e)))
+    # formats of one and two elements over every element kind (how a record ends decides the mode and the printer)
+    lines += [T(t) for t in format_tail_trees()]
     # resources whose keys differ only up to a plausible normalisation (./ prefix, case, escaping, trimming, NFD)
     lines += [T(t) for t in twin_trees()]
+    # ... or that collide when a key is built by concatenating the string with a flag / kind / terminator
+    lines += [T(t) for t in key_twin_trees()]
     lines = vary_options(lines, rnd)
     return lines, {'rule': '%d expressions with 0..13 (every 50th: 100..300) matchers and printers in random first-occurrence order, with repeats, case-only differences, pattern/literal pairs, file and stdout destinations, in plain and framed mode; non-trivial = at least two resources' % n,
                    'streams': {'resources': len(lines)}}
@@ -343,8 +428,9 @@ def gen_actions(tier, rnd):
         for l in leaves[1:]:
             tree = '(And %s %s)' % (tree, l)
         lines.append(T(tree))
+    lines += [T(t) for t in format_tail_trees()[::2]]
     # destinations whose names differ only up to a plausible normalisation: two table entries, two tags
-    lines += [T(t) for t in twin_trees() if 'FilePrint' in t]
+    lines += [T(t) for t in twin_trees() + key_twin_trees() if 'FilePrint' in t]
     lines = vary_options(lines, rnd)
     # every octal escape value as the last element of a stdout format (is it the newline escape or not?)
     for v in range(0, 512):
